@@ -72,6 +72,10 @@ func classify(c *ast.CallExpr, recv string) string {
 		return "queueGetTimeout"
 	case recv + ".Queue.GetNoWait":
 		return "queueGetNoWait"
+	case recv + ".Queue.GetCapacity":
+		return "queueGetCapacity"
+	case recv + ".Queue.SetCapacity":
+		return "queueSetCapacity"
 	case "net.DialTimeout", "net.Dial":
 		return "dial"
 	case "bufio.NewWriterSize", "bufio.NewWriter":
@@ -189,6 +193,220 @@ func connectLocked(f *fn) bool {
 	return total > 0 && total == good
 }
 
+// ---------------------------------------------------------------- statement programs (interpreted tie A)
+
+func callKind(n ast.Node, recv string) string { // the first model-relevant call under n
+	k := ""
+	if n == nil {
+		return k
+	}
+	ast.Inspect(n, func(m ast.Node) bool {
+		if k != "" {
+			return false
+		}
+		if c, ok := m.(*ast.CallExpr); ok {
+			if kk := classify(c, recv); kk != "" {
+				k = kk
+			}
+		}
+		return true
+	})
+	return k
+}
+
+func leaves(b *ast.BlockStmt) bool { // does the block return / continue / break?
+	found := false
+	ast.Inspect(b, func(m ast.Node) bool {
+		switch x := m.(type) {
+		case *ast.ReturnStmt:
+			found = true
+		case *ast.BranchStmt:
+			if x.Tok == token.CONTINUE || x.Tok == token.BREAK {
+				found = true
+			}
+		}
+		return true
+	})
+	return found
+}
+
+func lb(b bool) string {
+	if b {
+		return "true"
+	}
+	return "false"
+}
+
+// transcribe turns a statement list into the constructors of Tcp.Stmt.
+func transcribe(list []ast.Stmt, recv string) []string {
+	var out []string
+	for i := 0; i < len(list); i++ {
+		switch st := list[i].(type) {
+		case *ast.ExprStmt:
+			switch callKind(st, recv) {
+			case "lock":
+				out = append(out, ".lock")
+			case "unlock":
+				out = append(out, ".unlock")
+			case "close":
+				out = append(out, ".close")
+			case "connect":
+				out = append(out, ".tryConnect false")
+			case "flush":
+				out = append(out, ".tryFlush false false")
+			case "send":
+				out = append(out, ".trySend false false")
+			case "queueSetCapacity":
+				out = append(out, ".setCapacity")
+			}
+		case *ast.DeferStmt:
+			if classify(st.Call, recv) == "unlock" {
+				out = append(out, ".deferUnlock")
+			}
+		case *ast.AssignStmt:
+			switch callKind(st, recv) {
+			case "makeData":
+				out = append(out, ".makeData")
+			case "connect":
+				leave := false
+				for j := i + 1; j < len(list) && j <= i+2; j++ { // `if err != nil { … continue }` may follow the Unlock
+					if is, ok := list[j].(*ast.IfStmt); ok && is.Init == nil && strings.HasSuffix(exprStr(is.Cond), "!=nil") {
+						leave = leaves(is.Body)
+					}
+				}
+				out = append(out, ".tryConnect "+lb(leave))
+			}
+		case *ast.IfStmt:
+			k := ""
+			if st.Init != nil {
+				k = callKind(st.Init, recv)
+			}
+			switch {
+			case k == "send":
+				out = append(out, ".trySend "+lb(containsCall(st.Body, recv, "close"))+" "+lb(leaves(st.Body)))
+			case k == "flush":
+				out = append(out, ".tryFlush "+lb(containsCall(st.Body, recv, "close"))+" "+lb(leaves(st.Body)))
+			case k == "connect":
+				out = append(out, ".tryConnect "+lb(leaves(st.Body)))
+			case k == "queueGetTimeout" || k == "queueGetNoWait":
+				out = append(out, ".getItem")
+				out = append(out, transcribe(st.Body.List, recv)...)
+			case strings.Contains(exprStr(st.Cond), ".License!="):
+				out = append(out, ".ifChanged")
+				out = append(out, transcribe(st.Body.List, recv)...)
+				out = append(out, ".endIf")
+			default:
+				out = append(out, transcribe(st.Body.List, recv)...)
+			}
+		case *ast.ReturnStmt:
+			if len(st.Results) == 1 && exprStr(st.Results[0]) == "nil" {
+				out = append(out, ".retNil")
+			}
+		case *ast.ForStmt:
+			out = append(out, transcribe(st.Body.List, recv)...)
+		case *ast.SelectStmt:
+			for _, c := range st.Body.List {
+				if cc, ok := c.(*ast.CommClause); ok && cc.Comm == nil { // default:
+					out = append(out, transcribe(cc.Body, recv)...)
+				}
+			}
+		case *ast.BlockStmt:
+			out = append(out, transcribe(st.List, recv)...)
+		}
+	}
+	return out
+}
+
+// transcribeSend: the statements of send().
+func transcribeSend(f *fn) []string {
+	var out []string
+	ast.Inspect(f.decl.Body, func(n ast.Node) bool {
+		switch x := n.(type) {
+		case *ast.IfStmt:
+			if exprStr(x.Cond) == f.recv+".conn==nil" && containsCall(x.Body, f.recv, "connect") {
+				out = append(out, ".ifNilConnect")
+				return false
+			}
+		case *ast.CallExpr:
+			switch classify(x, f.recv) {
+			case "setDeadline":
+				out = append(out, ".armDeadline")
+			case "bufWrite":
+				out = append(out, ".bufWrite")
+			}
+		}
+		return true
+	})
+	return out
+}
+
+func leanList(xs []string) string { return "[" + strings.Join(xs, ", ") + "]" }
+
+// closeLocked: every statement that calls Close() is directly preceded (possibly with Connect-free
+// assignments in between) by Lock in its list — same sibling rule as connectLocked, for Close.
+func closeLocked(f *fn) bool {
+	ok := true
+	var lists [][]ast.Stmt
+	ast.Inspect(f.decl.Body, func(n ast.Node) bool {
+		if b, isB := n.(*ast.BlockStmt); isB {
+			lists = append(lists, b.List)
+		}
+		return true
+	})
+	for _, l := range lists {
+		for i, s := range l {
+			if es, isE := s.(*ast.ExprStmt); isE && callKind(es, f.recv) == "close" {
+				// walk outwards: some enclosing list must have Lock before and Unlock after this position;
+				// approximated lexically over the whole function
+				_ = i
+				if !lexicallyLocked(f, es.Pos()) {
+					ok = false
+				}
+			}
+		}
+	}
+	return ok
+}
+
+// allLexicallyLocked: every Close / Connect call of f lies between a Lock and the next Unlock.
+func allLexicallyLocked(f *fn) bool {
+	ok, n := true, 0
+	ast.Inspect(f.decl.Body, func(m ast.Node) bool {
+		if c, isC := m.(*ast.CallExpr); isC {
+			if k := classify(c, f.recv); k == "close" || k == "connect" {
+				n++
+				if !lexicallyLocked(f, c.Pos()) {
+					ok = false
+				}
+			}
+		}
+		return true
+	})
+	return ok && n > 0
+}
+
+func lexicallyLocked(f *fn, pos token.Pos) bool {
+	held := false
+	res := false
+	ast.Inspect(f.decl.Body, func(n ast.Node) bool {
+		if c, ok := n.(*ast.CallExpr); ok {
+			switch classify(c, f.recv) {
+			case "lock":
+				if c.Pos() < pos {
+					held = true
+				}
+			case "unlock":
+				if c.Pos() < pos {
+					held = false
+				}
+			}
+		}
+		return true
+	})
+	res = held
+	return res
+}
+
 func exprStr(e ast.Expr) string {
 	switch x := e.(type) {
 	case *ast.BinaryExpr:
@@ -303,6 +521,7 @@ func main() {
 		return &fn{&ast.FuncDecl{Body: &ast.BlockStmt{}}, "this"}
 	}
 	sd, pr, sf, se, co, cl, fl, md := get("sendDirect"), get("process"), get("SendFlush"), get("send"), get("Connect"), get("Close"), get("Flush"), get("makeData")
+	ac := get("ApplyConfig")
 
 	// send(): Connect only inside `if this.conn == nil`
 	sendNil := false
@@ -385,12 +604,14 @@ func main() {
 
 	var b strings.Builder
 	b.WriteString("-- generated by xlate/c06 from net/oneway/OneWayTcpClient.go — do not edit\n")
-	b.WriteString("import Golib.Tcp.Facts\n\nnamespace Gen.C06\nopen Tcp\n\n")
+	b.WriteString("import Golib.Tcp.Facts\nimport Golib.Tcp.Interp\n\nnamespace Gen.C06\nopen Tcp\n\n")
 	b.WriteString("def facts : Facts :=\n")
 	fmt.Fprintf(&b, "  { sendDirect := %s\n", leanCalls(callSeq(sd)))
 	fmt.Fprintf(&b, "    directCloseOnSendErr := %s\n", leanBool(closeOnErr(sd, "send")))
 	fmt.Fprintf(&b, "    directCloseOnFlushErr := %s\n", leanBool(closeOnErr(sd, "flush")))
 	fmt.Fprintf(&b, "    process := %s\n", leanCalls(callSeq(pr)))
+	fmt.Fprintf(&b, "    applyConfig := %s\n", leanCalls(callSeq(ac)))
+	fmt.Fprintf(&b, "    applyConfigLocked := %s\n", leanBool(allLexicallyLocked(ac)))
 	fmt.Fprintf(&b, "    processConnectLocked := %s\n", leanBool(connectLocked(pr)))
 	fmt.Fprintf(&b, "    processCloseOnSendErr := %s\n", leanBool(closeOnErr(pr, "send")))
 	fmt.Fprintf(&b, "    processCloseOnFlushErr := %s\n", leanBool(closeOnErr(pr, "flush")))
@@ -408,6 +629,21 @@ func main() {
 	fmt.Fprintf(&b, "    licenseOverrideWhenNonEmpty := %s\n", leanBool(lic))
 	fmt.Fprintf(&b, "    headerSrc := %s\n", num(src))
 	fmt.Fprintf(&b, "    headerVer := %s }\n", num(ver))
+	// the statement programs, interpreted in Golib.Tcp.Interp
+	procAll := transcribe(pr.decl.Body.List, pr.recv)
+	top, item := procAll, []string{}
+	for i, x := range procAll {
+		if x == ".getItem" {
+			top, item = procAll[:i+1], procAll[i+1:]
+			break
+		}
+	}
+	b.WriteString("\ndef progs : Progs :=\n")
+	fmt.Fprintf(&b, "  { sendDirect := %s\n", leanList(transcribe(sd.decl.Body.List, sd.recv)))
+	fmt.Fprintf(&b, "    send := %s\n", leanList(transcribeSend(se)))
+	fmt.Fprintf(&b, "    procTop := %s\n", leanList(top))
+	fmt.Fprintf(&b, "    procItem := %s\n", leanList(item))
+	fmt.Fprintf(&b, "    applyConfig := %s }\n", leanList(transcribe(ac.decl.Body.List, ac.recv)))
 	b.WriteString("\nend Gen.C06\n")
 	if *out == "" {
 		fmt.Print(b.String())
